@@ -35,10 +35,6 @@ func verifScribble(bs ...[]byte) {
 	}
 }
 
-var verifClockNS int64
-
-func verifNow() time.Time { return time.Unix(0, verifClockNS) }
-
 type verifNonceEvent struct {
 	Now    int64  `json:"now"`
 	Sender string `json:"sender"`
@@ -70,12 +66,12 @@ func TestVerifNonce(t *testing.T) {
 	const cluster = "verif-cluster"
 	for ci := range cases {
 		c := &cases[ci]
-		verifClockNS = c.T0
+		VerifClockNS.Store(c.T0)
 		nc := NewNonceCache(time.Duration(c.TTL))
 		tol := time.Duration(c.Tol)
 		for _, ev0 := range c.Events {
 			ev := ev0
-			verifClockNS = ev.Now
+			VerifClockNS.Store(ev.Now)
 			ok := false
 			var sb, nb []byte
 			ev.Sender, sb = verifVolatile(ev0.Sender)
